@@ -1,0 +1,169 @@
+//! `Mutex` / `Condvar` shim for the `baton` engine of the external model-checking harness
+//! (feature `verif`).
+//!
+//! The types wrap the `std::sync` types and have the part of their API that mmtk-core uses.
+//! Every lock / unlock / wait / notify is announced to the runtime seam ([`super::rt`]).  When no
+//! runtime is registered, or the calling thread is not scheduled by it, the announcements are
+//! no-ops and the types behave exactly like the `std` types.  When the calling thread is
+//! scheduled by the runtime, blocking is *logical*: the runtime only lets the thread continue
+//! once the logical lock is granted (so the real `lock()` that follows is never contended), and
+//! a condition wait really unlocks the mutex, waits logically and really locks it again.
+
+use super::rt;
+use std::ops::{Deref, DerefMut};
+use std::sync::{LockResult, PoisonError, TryLockError, TryLockResult};
+
+/// See the module documentation.
+#[derive(Default)]
+pub struct Mutex<T> {
+    inner: std::sync::Mutex<T>,
+}
+
+/// Guard of [`Mutex`].
+pub struct MutexGuard<'a, T> {
+    mutex: &'a Mutex<T>,
+    guard: Option<std::sync::MutexGuard<'a, T>>,
+}
+
+impl<T> Mutex<T> {
+    /// Like `std::sync::Mutex::new`.
+    pub fn new(t: T) -> Self {
+        Mutex {
+            inner: std::sync::Mutex::new(t),
+        }
+    }
+
+    fn id(&self) -> usize {
+        rt::addr_of(&self.inner)
+    }
+
+    /// Like `std::sync::Mutex::lock`.
+    pub fn lock(&self) -> LockResult<MutexGuard<'_, T>> {
+        rt::lock_acquire(self.id(), rt::LockMode::Mutex);
+        match self.inner.lock() {
+            Ok(g) => Ok(MutexGuard {
+                mutex: self,
+                guard: Some(g),
+            }),
+            Err(p) => Err(PoisonError::new(MutexGuard {
+                mutex: self,
+                guard: Some(p.into_inner()),
+            })),
+        }
+    }
+
+    /// Like `std::sync::Mutex::try_lock`.
+    pub fn try_lock(&self) -> TryLockResult<MutexGuard<'_, T>> {
+        match rt::lock_try_acquire(self.id(), rt::LockMode::Mutex) {
+            Some(false) => Err(TryLockError::WouldBlock),
+            Some(true) => match self.inner.lock() {
+                Ok(g) => Ok(MutexGuard {
+                    mutex: self,
+                    guard: Some(g),
+                }),
+                Err(p) => Err(TryLockError::Poisoned(PoisonError::new(MutexGuard {
+                    mutex: self,
+                    guard: Some(p.into_inner()),
+                }))),
+            },
+            None => match self.inner.try_lock() {
+                Ok(g) => Ok(MutexGuard {
+                    mutex: self,
+                    guard: Some(g),
+                }),
+                Err(TryLockError::WouldBlock) => Err(TryLockError::WouldBlock),
+                Err(TryLockError::Poisoned(p)) => {
+                    Err(TryLockError::Poisoned(PoisonError::new(MutexGuard {
+                        mutex: self,
+                        guard: Some(p.into_inner()),
+                    })))
+                }
+            },
+        }
+    }
+}
+
+impl<T> Deref for MutexGuard<'_, T> {
+    type Target = T;
+    fn deref(&self) -> &T {
+        self.guard.as_ref().unwrap()
+    }
+}
+
+impl<T> DerefMut for MutexGuard<'_, T> {
+    fn deref_mut(&mut self) -> &mut T {
+        self.guard.as_mut().unwrap()
+    }
+}
+
+impl<T> Drop for MutexGuard<'_, T> {
+    fn drop(&mut self) {
+        // really unlock first, then give the logical lock up
+        self.guard = None;
+        rt::lock_release(self.mutex.id(), rt::LockMode::Mutex);
+    }
+}
+
+/// See the module documentation.
+#[derive(Default)]
+pub struct Condvar {
+    inner: std::sync::Condvar,
+}
+
+impl Condvar {
+    /// Like `std::sync::Condvar::new`.
+    pub fn new() -> Self {
+        Condvar {
+            inner: std::sync::Condvar::new(),
+        }
+    }
+
+    fn id(&self) -> usize {
+        rt::addr_of(&self.inner)
+    }
+
+    /// Like `std::sync::Condvar::wait`.
+    pub fn wait<'a, T>(&self, mut guard: MutexGuard<'a, T>) -> LockResult<MutexGuard<'a, T>> {
+        let mutex = guard.mutex;
+        if rt::controls(rt::Class::Sync) {
+            // really unlock; wait logically (releases and re-acquires the logical mutex); really
+            // lock again (never contended: the logical mutex is ours)
+            guard.guard = None;
+            rt::cond_wait(self.id(), mutex.id());
+            match mutex.inner.lock() {
+                Ok(g) => {
+                    guard.guard = Some(g);
+                    Ok(guard)
+                }
+                Err(p) => {
+                    guard.guard = Some(p.into_inner());
+                    Err(PoisonError::new(guard))
+                }
+            }
+        } else {
+            let std_guard = guard.guard.take().unwrap();
+            match self.inner.wait(std_guard) {
+                Ok(g) => {
+                    guard.guard = Some(g);
+                    Ok(guard)
+                }
+                Err(p) => {
+                    guard.guard = Some(p.into_inner());
+                    Err(PoisonError::new(guard))
+                }
+            }
+        }
+    }
+
+    /// Like `std::sync::Condvar::notify_one`.
+    pub fn notify_one(&self) {
+        rt::cond_notify(self.id(), false);
+        self.inner.notify_one();
+    }
+
+    /// Like `std::sync::Condvar::notify_all`.
+    pub fn notify_all(&self) {
+        rt::cond_notify(self.id(), true);
+        self.inner.notify_all();
+    }
+}
